@@ -84,7 +84,18 @@ fn perturb(t: &mut Tape, p: &Program) -> Option<(Program, String)> {
             && matches!(c.placement, plant::Placement::GlobalInit | plant::Placement::Operand | plant::Placement::Element | plant::Placement::Argument | plant::Placement::FieldInit)
             && p.globals.iter().any(|g| g.var == c.global && !matches!(g.value.kind, EKind::Lambda(_)) && p.var(g.var).ty == olds[i].ty)
     });
-    let pools: [(&Vec<usize>, u32); 11] = [
+    // binders of the enclosing top-level definition that are *not* in scope at the site (their scope has ended, or they are
+    // declared later, or they belong to another function literal) and have the type the site expects
+    let oos_vars = |i: usize| -> Vec<VarId> {
+        let c = &sites[i].ctx;
+        let mut inside: Vec<VarId> = Vec::new();
+        if let Some(g) = p.globals.iter().find(|g| g.var == c.global) {
+            crate::c09::collect_binders(&g.value, &mut inside);
+        }
+        inside.into_iter().filter(|v| !c.scope.contains(v) && p.var(*v).kind != VarKind::SelfVar && p.var(*v).ty == olds[i].ty).collect()
+    };
+    let c_oos = cand(&|i| !oos_vars(i).is_empty());
+    let pools: [(&Vec<usize>, u32); 12] = [
         (&c_any, 20),
         (&c_var, 16),
         (&c_blob, 45),
@@ -96,6 +107,7 @@ fn perturb(t: &mut Tape, p: &Program) -> Option<(Program, String)> {
         (&c_tuple, 8),
         (&c_op, 14),
         (&c_selfinit, 10),
+        (&c_oos, 12),
     ];
     let weights: Vec<u32> = pools.iter().map(|(c, w)| if c.is_empty() { 0 } else { *w }).collect();
     if weights.iter().all(|w| *w == 0) {
@@ -240,6 +252,13 @@ fn perturb(t: &mut Tape, p: &Program) -> Option<(Program, String)> {
             }
             _ => return None,
         },
+        11 => {
+            // a variable of the right type whose declaration is not visible here: unless the use is rejected, running it reads
+            // a variable that does not exist (yet / any more)
+            let vs = oos_vars(si);
+            let v = *t.pick(&vs);
+            (mark(e(claimed.clone(), EKind::Var(v))), "out-of-scope-variable")
+        }
         10 => {
             // the initialiser of a global reads the global itself: a read of an uninitialised variable unless rejected
             (mark(e(claimed.clone(), EKind::Var(site.ctx.global))), "global-reads-itself-in-initialiser")
